@@ -191,7 +191,7 @@ func (h *Hist) action(height int64, bt time.Time, codes map[string]int, txs *[][
 		kind string
 	}
 	menu := []choice{
-		{h.w(14, "c23", 6), "stakenew"}, {h.w(16, "c23", 40), "edit"}, {h.w(12, "c24", 22), "unstake"}, {h.w(10, "c25", 18), "unjail"},
+		{h.w(14, "c23", 6), "stakenew"}, {h.w(h.w(5, "c19", 12), "c24", 12), "restake"}, {h.w(16, "c23", 40), "edit"}, {h.w(12, "c24", 22), "unstake"}, {h.w(10, "c25", 18), "unjail"},
 		{h.w(7, "c22", 14), "param"}, {h.w(8, "c25", 18), "slash"}, {4, "burnchal"}, {4, "reward"}, {h.w(2, "c19", 5), "send"},
 	}
 	if height < 3 {
@@ -223,7 +223,7 @@ func (h *Hist) action(height int64, bt time.Time, codes map[string]int, txs *[][
 		} else {
 			k = h.nodes[r.Intn(len(h.nodes))] // existing record: unstaking -> status error, staked -> edit
 		}
-		amt := min + int64([]int{-1, 0, 0, 1, 1000000, 1999999, 15000000000, 30000000000, 45000000001, 300000000000}[r.Intn(10)])
+		amt := min + int64([]int{-1, 0, 0, 1, 700000, 1000000, 1999999, 2300000, 15000000000, 30000000000, 45000700001, 300000000000}[r.Intn(12)])
 		out := sdk.Address(k.Addr)
 		signer := k
 		switch r.Intn(6) {
@@ -244,6 +244,33 @@ func (h *Hist) action(height int64, bt time.Time, codes map[string]int, txs *[][
 		line := h.stakeLine(height, signer, k, amt, chains, url, out, del)
 		res, taken := h.deliver(height, bt, bz, txs, results)
 		record(line, res, taken)
+	case "restake":
+		// a well-formed MsgStake, signed by the operator, for a node that is unstaking (jailed or not), waiting to
+		// unstake, jailed, or has just been paid out: only the last one is a fresh stake
+		cands := h.valsWhere(func(v nodesTypes.Validator) bool {
+			return v.Status == sdk.Unstaking || h.snap.Waiting[v.Address.String()] || v.Jailed
+		})
+		var k chain.Key
+		if len(cands) > 0 && !r.Chance(1, 6) {
+			un := h.valsWhere(func(v nodesTypes.Validator) bool { return v.Status == sdk.Unstaking })
+			if len(un) > 0 && r.Chance(2, 3) {
+				cands = un
+			}
+			k = h.keyOf[cands[r.Intn(len(cands))].Address.String()]
+		} else if len(free) > 0 {
+			k = free[r.Intn(len(free))] // (possibly a node that fully unstaked earlier)
+		} else {
+			return
+		}
+		amt := min + int64([]int{0, 1000000, 2300000, 15000000000}[r.Intn(4)])
+		if v, ok := h.snap.Vals[k.Addr.String()]; ok && v.Status == sdk.Staked {
+			amt = v.StakedTokens.Int64() + 15000000000
+		}
+		chains, url := []string{"0001"}, "https://re.example:443"
+		bz := chain.SignTx(chainID, k, chain.MsgNodeStake(k, amt, chains, url, k.Addr, nil), fee, h.nextEntropy(), "")
+		line := h.stakeLine(height, k, k, amt, chains, url, k.Addr, nil)
+		res, taken := h.deliver(height, bt, bz, txs, results)
+		record(line, res, taken)
 	case "edit":
 		if len(staked) == 0 {
 			return
@@ -262,6 +289,29 @@ func (h *Hist) action(height int64, bt time.Time, codes map[string]int, txs *[][
 			amt = (cur/floor+1)*floor - 1 // just below the next bin
 		case 2:
 			amt = cur + floor + int64(r.Intn(3))
+		}
+		if r.Chance(h.w(1, "c21", 2), 4) {
+			// a bump below one unit of consensus power (< 1 POKT): the power-rank key moves iff a whole-POKT boundary is crossed
+			rem := cur % 1000000
+			switch r.Intn(4) {
+			case 0: // cross the boundary with the smallest possible bump
+				amt = cur + (1000000 - rem)
+				if rem == 0 {
+					amt = cur + 999999 // (no boundary within reach: stay inside)
+				}
+			case 1: // cross it by a fractional amount, e.g. x.7 -> (x+1).2 POKT
+				amt = cur + (1000000 - rem) + int64(1+r.Intn(300000))
+				if amt-cur >= 1000000 {
+					amt = cur + 999999
+				}
+			case 2: // stay just below the boundary
+				amt = cur + (1000000 - rem) - 1
+				if amt <= cur {
+					amt = cur + 400000
+				}
+			default:
+				amt = cur + int64([]int{1, 400000, 700000, 999999}[r.Intn(4)])
+			}
 		}
 		out := v.OutputAddress
 		if out == nil && !r.Chance(1, 8) { // custodial genesis record: the operator sets an output address
